@@ -156,6 +156,49 @@ Theorem C03_groupby_group_is_filter : forall st s k kv d m ks,
 Proof. exact step_groupget. Qed.
 Print Assumptions C03_groupby_group_is_filter.
 
+(* GroupBy.count / agg / do over the groups.  agg can never raise ValueError (no group is empty),
+   raises AttributeError only when a member lacks the attribute, else gives one value per group in
+   group order; do("set", name, v) over the groups is s.set(name, v) on the set. *)
+Theorem C03_groupby_count : forall st s k m ks,
+  members st s = Some m -> all_some (eval_key (st_tbl st) k) m = Some ks ->
+  let kf := key_or0 (st_tbl st) k in
+  step st (GroupCount s k) =
+  (st, ROk (zlen (groupby_members kf m) ::
+            flat_map (fun e => [fst e; zlen (snd e)]) (groupby_members kf m))).
+Proof. exact step_group_count. Qed.
+Print Assumptions C03_groupby_count.
+
+Theorem C03_groupby_agg : forall st s k n f m ks,
+  members st s = Some m -> all_some (eval_key (st_tbl st) k) m = Some ks ->
+  let g := groupby_members (key_or0 (st_tbl st) k) m in
+  snd (step st (GroupAgg s k n f)) <> RErr E_VALUE /\
+  (snd (step st (GroupAgg s k n f)) = RErr E_ATTR ->
+     exists a, In a m /\ attr_of (st_tbl st) a n = None) /\
+  ((forall a, In a m -> attr_of (st_tbl st) a n <> None) ->
+     step st (GroupAgg s k n f) =
+     (st, ROk (flat_map (fun e => [fst e; agg_val (st_tbl st) n f (snd e)]) g))).
+Proof. exact step_group_agg. Qed.
+Print Assumptions C03_groupby_agg.
+
+Theorem C03_groupby_do_set_is_set : forall st s k n v m ks,
+  members st s = Some m -> all_some (eval_key (st_tbl st) k) m = Some ks ->
+  step st (GroupDoSet s k n v) = step st (SetAttr s n v).
+Proof. exact step_group_do_set. Qed.
+Print Assumptions C03_groupby_do_set_is_set.
+
+Example C03_groupby_methods_example :
+  let st := {| st_tbl := [(1, {| a_cls := 0; a_attrs := [(0, 4); (1, 7)] |});
+                          (2, {| a_cls := 1; a_attrs := [(0, -2)] |});
+                          (3, {| a_cls := 2; a_attrs := [(1, 1); (0, 4)] |})];
+               st_pool := [(0, [3; 1; 2])] |} in
+  all_some (eval_key (st_tbl st) (KAttr 0)) [3; 1; 2] = Some [4; 4; -2] /\
+  snd (step st (GroupCount 0 (KAttr 0))) = ROk [2; 4; 2; -2; 1] /\
+  snd (step st (GroupAgg 0 (KAttr 0) 0 FMin)) = ROk [4; 4; -2; -2] /\
+  snd (step st (GroupAgg 0 (KAttr 0) 1 FMax)) = RErr E_ATTR /\
+  snd (step st (GroupAgg 0 KCls 1 FSum)) = RErr E_ATTR /\
+  attr_of (st_tbl (fst (step st (GroupDoSet 0 (KAttr 0) 1 5)))) 2 1 = Some 5.
+Proof. vm_compute. repeat split. Qed.
+
 Example C03_groupby_example :
   groupby_members (fun a => a mod 3) [4; 2; 7; 3; 5; 1] = [(1, [4; 7; 1]); (2, [2; 5]); (0, [3])].
 Proof. vm_compute. reflexivity. Qed.
